@@ -6,7 +6,7 @@ get_instructions_bytes); Spec = XV.Spec.Dis (dis._unpack_opargs per era).
 import XV.Model.Decode
 import XV.Spec.Dis
 import XV.Spec.OpTables
-import XV.Props.C02Stream
+import XV.Props.C02.Stream
 namespace XV.Props.C02
 open XV XV.Model XV.Model.Decode
 
